@@ -72,11 +72,19 @@ def gen_case(rng: random.Random, tier: str) -> dict:
         for t in terms:
             t["scale"] = None
             t.pop("scale2", None)
+    names_ = {nm for nm, _c in frame["cols"]}
+    if mat == "pandas" and rng.random() < 0.12 and ctx is None and all(fa["kind"] == "cat" or (fa["kind"] == "num" and fa["text"] in names_) for fa in factors.values()):
+        # a float column held in pandas' sparse extension dtype whose fill value is not zero (most of its entries equal the fill)
+        sc = rng.choice([c for _nm, c in frame["cols"] if c["kind"] == "num"])
+        if sc.get("dtype", "float64") == "float64":
+            fill = rng.choice([1.0, -2.5, 7.0])
+            sc["values"] = [fill if rng.random() < 0.7 else v for v in sc["values"]]
+            sc["dtype"] = f"sparse:{fill}"
     na = "drop"
     if rng.random() < 0.25:  # missing values kept in the matrix: every product involving one is itself missing
         na = "ignore"
         for _nm, c in frame["cols"]:
-            if c["kind"] == "num" and c.get("dtype", "float64") == "float64":
+            if c["kind"] == "num" and c.get("dtype", "float64") in ("float64",) :
                 c["values"] = [None if rng.random() < 0.15 else v for v in c["values"]]
     return {
         "na": na,
